@@ -28,6 +28,10 @@ struct Case {
     acceptor: Vec<bool>,
     empty_alpn: bool,
     self_dial: bool,
+    /// the connect options additionally offer the (valid) main protocol name — an empty PRIMARY name must still fail
+    /// (seeded change C42-seed73 validated only the filtered offer list)
+    #[serde(default)]
+    additional_alpn: bool,
 }
 
 #[derive(Debug, Clone, PartialEq, Eq)]
@@ -95,8 +99,9 @@ enum Dial {
     Ok(Connection),
 }
 
-async fn dial(ep: &Endpoint, addr: EndpointAddr, alpn: &[u8]) -> Dial {
-    let connecting = match ep.connect_with_opts(addr, alpn, ConnectOptions::new()).await {
+async fn dial(ep: &Endpoint, addr: EndpointAddr, alpn: &[u8], additional: bool) -> Dial {
+    let opts = if additional { ConnectOptions::new().with_additional_alpns(vec![MAIN.to_vec()]) } else { ConnectOptions::new() };
+    let connecting = match ep.connect_with_opts(addr, alpn, opts).await {
         Ok(c) => c,
         Err(e) => {
             let k = match &e {
@@ -215,7 +220,7 @@ async fn run_case_async(ctx: &Ctx, case: &Case) -> Result<(String, String), Stri
     let target = if case.self_dial { dial_addr(&dialer) } else { dial_addr(&server) };
     let target_id = target.id;
     let alpn: &[u8] = if case.empty_alpn { b"" } else { MAIN };
-    let res = tokio::time::timeout(POSITIVE_TIMEOUT, dial(&dialer, target, alpn))
+    let res = tokio::time::timeout(POSITIVE_TIMEOUT, dial(&dialer, target, alpn, case.additional_alpn))
         .await
         .map_err(|_| "machinery: the dial neither succeeded nor failed within the time-out".to_string())?;
 
@@ -269,7 +274,7 @@ async fn run_case_async(ctx: &Ctx, case: &Case) -> Result<(String, String), Stri
     }
 
     // ---- sentinel: everything the attempt sent arrived before it ----
-    let sres = tokio::time::timeout(POSITIVE_TIMEOUT, dial(&dialer, dial_addr(&server), SENTINEL))
+    let sres = tokio::time::timeout(POSITIVE_TIMEOUT, dial(&dialer, dial_addr(&server), SENTINEL, false))
         .await
         .map_err(|_| "machinery: sentinel dial timed out".to_string())?;
     let Dial::Ok(sconn) = sres else {
@@ -439,11 +444,12 @@ fn gen_cases(ctx: &Ctx) -> Vec<Case> {
     let mut out = Vec::new();
     for d in &dlists {
         for a in &alists {
-            out.push(Case { dialer: d.clone(), acceptor: a.clone(), empty_alpn: false, self_dial: false });
+            out.push(Case { dialer: d.clone(), acceptor: a.clone(), empty_alpn: false, self_dial: false, additional_alpn: false });
         }
         for (e, s) in [(true, false), (false, true), (true, true)] {
-            out.push(Case { dialer: d.clone(), acceptor: vec![], empty_alpn: e, self_dial: s });
+            out.push(Case { dialer: d.clone(), acceptor: vec![], empty_alpn: e, self_dial: s, additional_alpn: false });
         }
+        out.push(Case { dialer: d.clone(), acceptor: vec![], empty_alpn: true, self_dial: false, additional_alpn: true });
     }
     out
 }
